@@ -36,7 +36,7 @@ pub fn gen_name(rng: &mut Rng, style: NameStyle) -> String {
                 _ => HAN_POOL,
             },
         };
-        s.push_str(rng.pick(pool));
+        s.push_str(*rng.pick::<&str>(pool));
     }
     s
 }
@@ -112,7 +112,8 @@ impl TermGen {
             12 => Term::new_difference_intension(sub(rng), sub(rng)),
             13 => Term::new_product(self.comps(rng, depth, 1)),
             14 | 15 => {
-                let v = self.comps(rng, depth, if rng.chance(1, 4) { 0 } else { 1 });
+                let min = if rng.chance(1, 4) { 0 } else { 1 };
+                let v = self.comps(rng, depth, min);
                 let idx = if self.wild && rng.chance(1, 8) { v.len() + 1 + rng.below(3) } else { rng.range(0, v.len()) };
                 // direct variant construction: the checked constructor panics for idx > len
                 if kind == 14 {
